@@ -208,9 +208,23 @@ def sse_events(specs):
             out.append(SSEvent(text='t', event='ev', event_id='7', retry=5, comment='c'))
         elif s == 'data':
             out.append(SSEvent(data=b'raw'))
+        elif isinstance(s, dict):
+            # a generated event (C05): the SSEvent keyword arguments; 'json' is a key of SSE_JSONS
+            kw = {k: v for k, v in s.items() if v is not None}
+            if 'json' in kw:
+                kw['json'] = sse_json_value(kw['json'])
+            out.append(SSEvent(**kw))
         else:
             out.append(SSEvent(comment='only'))
     return out
+
+
+SSE_JSONS = {'obj': {'a': 1}, 'list': [], 'str': 'é', 'zero': 0, 'nested': {'k': [1, {'x': None}]}}
+SSE_HOOK = None  # C05: `async def hook(i)` awaited by the emitter before it yields event i (and once after the last)
+
+
+def sse_json_value(key):
+    return object() if key == 'unserialisable' else SSE_JSONS[key]
 
 
 def sse_expected(specs):
@@ -247,9 +261,15 @@ def fill(resp, p, asgi, snapshot=None):
     if p['sse'] is not None and asgi:
         evs = sse_events(p['sse'])
 
+        hook = SSE_HOOK
+
         async def emitter():
-            for e in evs:
+            for i, e in enumerate(evs):
+                if hook is not None:
+                    await hook(i)
                 yield e
+            if hook is not None:
+                await hook(len(evs))
         resp.sse = emitter()
     if p['xa'] is not None:
         resp.set_header('X-A', p['xa'])
